@@ -179,9 +179,12 @@ func (p *RecPeerStore) Seed(addrs ...string) {
 // i.e. a point at which the closing goroutine may be descheduled).
 type SlowListener struct {
 	net.Listener
-	linger  func() time.Duration
-	closed  atomic.Bool
-	accepts atomic.Int64
+	linger func() time.Duration
+	// LingerAgain delays every later Close call (Run closes the listener once
+	// more on its way out): the goroutine running Run is descheduled there.
+	LingerAgain func() time.Duration
+	closed      atomic.Bool
+	accepts     atomic.Int64
 	// InnerClosed is closed once the socket itself has been closed (Close may
 	// still be lingering).
 	InnerClosed chan struct{}
@@ -215,6 +218,10 @@ func (s *SlowListener) Close() error {
 			if d := s.linger(); d > 0 {
 				time.Sleep(d)
 			}
+		}
+	} else if s.LingerAgain != nil {
+		if d := s.LingerAgain(); d > 0 {
+			time.Sleep(d)
 		}
 	}
 	return err
